@@ -879,6 +879,15 @@ def _selfdep(run, P):
     ok = False
     site = f.node
     cond_ok = False
+    if not rew:
+        # the statement is rebuilt in some other way (other options of map_expressions,
+        # no copy): which guard and dependencies it ends up with is not decided here
+        odd = [x for x in ast.walk(f.node) if isinstance(x, ast.Call)
+               and isinstance(x.func, ast.Attribute) and x.func.attr == "map_expressions"
+               and any(k.arg not in ("include_lhs",) for k in x.keywords)]
+        if odd:
+            raise AnalysisError(f"SelfDependencyEliminator.map_statement: {norm(odd[0])[:70]} "
+                                f"is not the recognised rebuild of the statement")
     if rew and rew[0][1]["V_ids"] in deps:
         newv = rew[0][1]["V_new"]
         cond_ok = norm(rew[0][2].get("condition")) == f"{stmt}.condition" \
